@@ -381,6 +381,37 @@ func init() {
 		setup: `(defclass $b () ((x :initform 1))) (defclass $c ($b) ((a :initarg :a)))`, obj: "(make-instance '$c :a 3)"})
 	addCase(&lfCase{label: "flavor-instance:nested", kind: "flavor-instance", feat: "instance-valued",
 		setup: `(defflavor $f (a (b 2)) () :inittable-instance-variables)`, obj: "(make-instance '$f :a (make-instance '$f :a 1))"})
+	// --------------------------------------------------- embedded special objects
+	// objects whose load form is NOT their printed text (a vector with a fill pointer / element type / fixed size,
+	// octets, a bit vector, an array, a hash table, an instance) one and two levels inside other containers: the load
+	// form of the outer object has to rebuild them from THEIR load forms whatever the nesting
+	specials := []struct{ feat, expr, support string }{
+		{"fill-pointer", "(make-array 4 :fill-pointer 2 :initial-contents '(1 2 3 4))", ""},
+		{"element-type", "(make-array 2 :element-type 'fixnum :initial-contents '(1 2))", ""},
+		{"not-adjustable", "(make-array 2 :adjustable nil :initial-contents '(1 2))", ""},
+		{"octets", "(coerce '(1 2 255) 'octets)", ""},
+		{"bit-vector", "#*101", ""},
+		{"array", "(make-array '(2 2) :initial-contents '((1 2) (3 4)))", ""},
+		{"hash", "(let ((h (make-hash-table))) (setf (gethash :k h) 1) h)", ""},
+	}
+	for _, sp := range specials {
+		x := sp.expr
+		data("embedded", sp.feat+"/list", "emb:list:"+sp.feat, "(list 'a "+x+")")
+		data("embedded", sp.feat+"/list-in-list", "emb:list2:"+sp.feat, "(list 'a (list \"b\" "+x+") 3)")
+		data("embedded", sp.feat+"/alist", "emb:alist:"+sp.feat, "(list (cons \"k\" "+x+") (cons 'j 2))")
+		data("embedded", sp.feat+"/list-in-vector", "emb:veclist:"+sp.feat, "(vector 1 (list 'b "+x+"))")
+		data("embedded", sp.feat+"/hash-value", "emb:hashval:"+sp.feat, hash(":q", x))
+		data("embedded", sp.feat+"/list-as-hash-value", "emb:hashlist:"+sp.feat, hash(":q", "(list 'b "+x+")"))
+		dataT("embedded", sp.feat+"/list-in-list-in-list", "emb:list3:"+sp.feat, "(list (list (list "+x+" 1) 2) 3)")
+		dataT("embedded", sp.feat+"/dotted", "emb:dotted:"+sp.feat, "(list 'a (cons 1 "+x+"))")
+		addCase(&lfCase{label: "emb:flavor-slot:" + sp.feat, kind: "embedded", feat: sp.feat + "/list-in-flavor-instance",
+			setup: `(defflavor $f (a (b 2)) () :inittable-instance-variables)`, obj: "(make-instance '$f :a (list 'b " + x + "))"})
+		addCase(&lfCase{label: "emb:clos-slot:" + sp.feat, kind: "embedded", feat: sp.feat + "/list-in-clos-instance",
+			setup: `(defclass $c () ((a :initarg :a) (b :initform 2)))`, obj: "(make-instance '$c :a (list 'b " + x + "))"})
+		addCase(&lfCase{label: "emb:flavor-default:" + sp.feat, kind: "embedded", feat: sp.feat + "/list-as-flavor-default", tier: engine.Thorough,
+			setup: "(defflavor $f ((a (list 'b " + x + "))) () :gettable-instance-variables)", defs: []string{"(make-load-form '$f)"},
+			probes: []string{"(c19-instance-dump (make-instance '$f))", "(make-load-form '$f)"}})
+	}
 	// ---------------------------------------------------------------- classes
 	cls := func(feat, setup string, defs []string, probes ...string) {
 		if defs == nil {
